@@ -31,6 +31,15 @@ import (
 //   ping
 //   ack:<id>                   PUBACK for one of the broker's outbound ids (no response required; frees the id)
 //   reconn                     (once) network drop + new connection resuming the session
+// Arg suffix ",mps=<M>" (v5): r announces Maximum Packet Size M in CONNECT (and again on the
+// resuming reconnect). The broker must not send a packet larger than M, so an
+// acknowledgement that cannot be made to fit (SUBACK/UNSUBACK: one reason code per filter,
+// 5+k bytes for k filters) leaves it only the other branch of the property: close the
+// connection. Additional filter lists in that scenario:
+//   big       M-4 distinct valid filters t/0.. : the acknowledgement needs M+1 bytes
+//   fit       M-5 filters (t/0, bad, t/2, ...): the acknowledgement needs exactly M bytes
+// A request whose acknowledgement exceeds M is classified separately
+// (shape suffix ":ack-exceeds-maximum-packet-size").
 // r subscribes to x with QoS 1 and never acknowledges, so the broker's own outbound
 // packet ids (1,2,...) are outstanding and collide with the ids r uses for requests;
 // inbound QoS 2 ids stay held until PUBREL.
@@ -46,7 +55,11 @@ import (
 
 type c07Model struct {
 	subs map[string]bool
-	n    int
+	// filters whose subscription state is unknown to the model: they were named in a
+	// SUBSCRIBE / UNSUBSCRIBE that was not answered (already reported); nothing is
+	// demanded of their UNSUBACK codes until an acknowledgement settles them again
+	unknown map[string]bool
+	n       int
 }
 
 var c07Filters = map[string]ref.Filter{
@@ -57,6 +70,67 @@ var c07Filters = map[string]ref.Filter{
 	"zz":  {Filter: "zz", Opts: 0},
 	"y2":  {Filter: "y", Opts: 2},
 }
+
+// c07List expands a filter list name: comma separated keys of c07Filters, or "big" / "fit"
+// (lists sized against the client's Maximum Packet Size mps, see the scenario description).
+func c07List(name string, mps int) []ref.Filter {
+	var fl []ref.Filter
+	switch name {
+	case "big", "fit":
+		n := mps - 4
+		if name == "fit" {
+			n = mps - 5
+		}
+		for i := 0; i < n; i++ {
+			f := ref.Filter{Filter: "t/" + strconv.Itoa(i), Opts: byte(i % 3)}
+			if name == "fit" && i == 1 {
+				f = c07Filters["bad"]
+			}
+			fl = append(fl, f)
+		}
+		return fl
+	}
+	for _, k := range strings.Split(name, ",") {
+		fl = append(fl, c07Filters[k])
+	}
+	return fl
+}
+
+// c07AckSize: the smallest encoding of the acknowledgement a request requires (no reason
+// string, no user properties; those are optional and the sender must leave them out when
+// they do not fit, MQTT 5 section 3.9.2.1.2 / 3.4.2.2.2). Computed from the MQTT specification.
+func c07AckSize(rq ref.Packet, ver byte) int {
+	body := 0
+	switch rq.Type {
+	case ref.PINGREQ:
+		body = 0
+	case ref.PUBLISH, ref.PUBREL:
+		body = 2 // reason code and property length may be omitted for reason 0x00
+	case ref.SUBSCRIBE:
+		body = 2 + len(rq.Filters)
+		if ver == 5 {
+			body++ // property length
+		}
+	case ref.UNSUBSCRIBE:
+		body = 2
+		if ver == 5 {
+			body += 1 + len(rq.Filters)
+		}
+	}
+	n := 1
+	for x := body; x >= 128; x /= 128 {
+		n++
+	}
+	return 1 + n + body
+}
+
+// c07Oversize: the acknowledgement of rq cannot be sent to a client that announced Maximum
+// Packet Size mps (0: none announced).
+func c07Oversize(rq ref.Packet, ver byte, mps int) bool {
+	return ver == 5 && mps > 0 && c07AckSize(rq, ver) > mps
+}
+
+const c07OversizeSuffix = ":ack-exceeds-maximum-packet-size"
 
 func c07TopicClass(t string) string {
 	switch {
@@ -79,9 +153,17 @@ func c07Run(arg string) explore.HistFn {
 	if i := strings.Index(arg, "n="); i >= 0 {
 		maxN, _ = strconv.Atoi(arg[i+2 : i+3])
 	}
+	mps := 0
+	if i := strings.Index(arg, "mps="); i >= 0 && ver == 5 {
+		fmt.Sscanf(arg[i:], "mps=%d", &mps)
+	}
 	conn := func() ref.Packet {
 		if ver == 5 {
-			return v5connect("r", false, 0, 60)
+			p := v5connect("r", false, 0, 60)
+			if mps > 0 {
+				p.Props = append(p.Props, ref.Prop{ID: ref.PMaximumPacketSize, Num: uint32(mps)})
+			}
+			return p
 		}
 		return world.ConnectPacket("r", ver, false)
 	}
@@ -93,7 +175,7 @@ func c07Run(arg string) explore.HistFn {
 				}
 			},
 		})
-		m := &c07Model{subs: map[string]bool{}}
+		m := &c07Model{subs: map[string]bool{}, unknown: map[string]bool{}}
 		counters := map[string]int{}
 		h.connect("r", conn())
 		r := h.Cl["r"]
@@ -143,10 +225,7 @@ func c07Run(arg string) explore.HistFn {
 			case "sub", "unsub":
 				n, _ := strconv.Atoi(f[1])
 				id = uint16(n)
-				var fl []ref.Filter
-				for _, k := range strings.Split(f[2], ",") {
-					fl = append(fl, c07Filters[k])
-				}
+				fl := c07List(f[2], mps)
 				if f[0] == "sub" {
 					req = ref.Packet{Type: ref.SUBSCRIBE, PacketID: id, Filters: fl}
 					want = ref.SUBACK
@@ -160,6 +239,12 @@ func c07Run(arg string) explore.HistFn {
 				req = ref.Packet{Type: ref.PINGREQ}
 				want = ref.PINGRESP
 				shape = "pingreq"
+			}
+			if c07Oversize(req, ver, mps) {
+				shape += c07OversizeSuffix
+				if h.last {
+					counters["requests-with-oversize-ack"]++
+				}
 			}
 			got := h.do("r", req)
 			if r.Err != nil {
@@ -190,6 +275,9 @@ func c07Run(arg string) explore.HistFn {
 				counters["answered:"+shape] += len(match)
 			}
 			if len(match) == 0 {
+				for _, fl := range req.Filters {
+					m.unknown[fl.Filter] = true
+				}
 				extra := ""
 				if len(stray) > 0 {
 					extra = ":answered-with-" + ref.TypeNames[stray[0].Type]
@@ -226,6 +314,7 @@ func c07Run(arg string) explore.HistFn {
 					}
 					if good && rc < 0x80 {
 						m.subs[fl.Filter] = true
+						delete(m.unknown, fl.Filter)
 					}
 				}
 				if h.last && len(req.Filters) > 1 {
@@ -239,6 +328,9 @@ func c07Run(arg string) explore.HistFn {
 					}
 					for i, fl := range req.Filters {
 						rc := ack.ReasonCodes[i]
+						if m.unknown[fl.Filter] {
+							continue
+						}
 						if m.subs[fl.Filter] && rc == 0x11 {
 							h.violate("unsuback:no-subscription-existed-for-existing", "%s: filter #%d %q is subscribed but code is 0x11 (codes %x)", req, i, fl.Filter, ack.ReasonCodes)
 						}
@@ -250,6 +342,7 @@ func c07Run(arg string) explore.HistFn {
 				for i, fl := range req.Filters {
 					if ver != 5 || ack.ReasonCodes[i] < 0x80 {
 						delete(m.subs, fl.Filter)
+						delete(m.unknown, fl.Filter)
 					}
 				}
 			}
@@ -275,8 +368,11 @@ func c07Run(arg string) explore.HistFn {
 				}
 				next = append(next, "unsub:"+id+":x", "unsub:"+id+":zz,x")
 			}
+			if mps > 0 {
+				next = append(next, "sub:1:big", "sub:2:big", "sub:1:fit", "unsub:1:big", "unsub:2:fit")
+			}
 		}
-		key := h.W.State() + fmt.Sprintf("|model:%v|%d|%d|closed=%v", explore.SortedKeys(m.subs), m.n, reconns, r.Closed())
+		key := h.W.State() + fmt.Sprintf("|model:%v|%v|%d|%d|closed=%v", explore.SortedKeys(m.subs), explore.SortedKeys(m.unknown), m.n, reconns, r.Closed())
 		res := h.finish(key, next)
 		res.Counters = counters
 		return res
@@ -293,6 +389,9 @@ func c07Run(arg string) explore.HistFn {
 // broker's threads (a's reader, a's write loop, b's reader, ...) up to the delay bound is
 // executed. The requests of a race the deliveries that b's publishes queue for a's
 // write loop, so two writers compete for a's connection.
+//
+// Arg prefix "v5m:": as v5, and a announces Maximum Packet Size 16 (actions bigsubA, bigunsubA:
+// the acknowledgement cannot be sent, the broker has to close; fitsubA: it just fits).
 //
 // Oracle, at quiescence after the explored phase, for every client and every interleaving:
 // connection closed, or every request sent in the phase has exactly one response of the
@@ -318,11 +417,18 @@ var c07Acts = map[string]c07Act{
 	"pubAs":   {"a", []ref.Packet{pub("$SYS/z", "n3", 1, 10)}},       // refused topic, still acknowledged
 	"relA":    {"a", []ref.Packet{{Type: ref.PUBREL, PacketID: 11}}}, // unknown id
 	"ackA":    {"a", []ref.Packet{{Type: ref.PUBACK, PacketID: 1}}},  // no response required; frees send quota
-	"pubB":    {"b", []ref.Packet{pub("x", "m2", 1, 2)}},
-	"pubB0":   {"b", []ref.Packet{pub("x", "m3", 0, 0)}},
-	"pubB2":   {"b", []ref.Packet{pub("x", "m4", 2, 3)}},
-	"pingB":   {"b", []ref.Packet{{Type: ref.PINGREQ}}},
+	// with arg prefix "v5m:" a announces Maximum Packet Size c07RaceMPS: the SUBACK / UNSUBACK of
+	// these cannot be sent, the SUBACK of fitsubA is exactly as large as allowed
+	"bigsubA":   {"a", []ref.Packet{{Type: ref.SUBSCRIBE, PacketID: 12, Filters: c07List("big", c07RaceMPS)}}},
+	"bigunsubA": {"a", []ref.Packet{{Type: ref.UNSUBSCRIBE, PacketID: 13, Filters: c07List("big", c07RaceMPS)}}},
+	"fitsubA":   {"a", []ref.Packet{{Type: ref.SUBSCRIBE, PacketID: 14, Filters: c07List("fit", c07RaceMPS)}}},
+	"pubB":      {"b", []ref.Packet{pub("x", "m2", 1, 2)}},
+	"pubB0":     {"b", []ref.Packet{pub("x", "m3", 0, 0)}},
+	"pubB2":     {"b", []ref.Packet{pub("x", "m4", 2, 3)}},
+	"pingB":     {"b", []ref.Packet{{Type: ref.PINGREQ}}},
 }
+
+const c07RaceMPS = 16
 
 func c07Shape(p ref.Packet) string {
 	switch p.Type {
@@ -366,7 +472,7 @@ var c07ResponseTypes = map[byte]bool{ref.PUBACK: true, ref.PUBREC: true, ref.PUB
 
 // c07Judge compares the requests one client sent in the concurrent phase with what the
 // broker wrote to its connection in that phase.
-func c07Judge(name string, cl *world.Client, reqs []ref.Packet, got []ref.Packet, counters map[string]int) []explore.Violation {
+func c07Judge(name string, cl *world.Client, mps int, reqs []ref.Packet, got []ref.Packet, counters map[string]int) []explore.Violation {
 	var out []explore.Violation
 	if cl.Err != nil {
 		counters["undecodable-output"]++ // C23's subject
@@ -392,6 +498,10 @@ func c07Judge(name string, cl *world.Client, reqs []ref.Packet, got []ref.Packet
 			continue
 		}
 		shape := c07Shape(rq)
+		if c07Oversize(rq, cl.Ver, mps) {
+			shape += c07OversizeSuffix
+			counters["requests-with-oversize-ack"]++
+		}
 		at := -1
 		for i, p := range got {
 			if !used[i] && p.Type == want && (want == ref.PINGRESP || p.PacketID == rq.PacketID) {
@@ -443,6 +553,10 @@ func c07RunDFS(arg string) explore.RunFn {
 	if strings.HasPrefix(arg, "v4:") {
 		ver = 4
 	}
+	mpsA := 0
+	if strings.HasPrefix(arg, "v5m:") {
+		mpsA = c07RaceMPS
+	}
 	acts := splitActs(arg[strings.Index(arg, ":")+1:])
 	return func(prefix []int) explore.Outcome {
 		w := world.New(prefix, world.Config{})
@@ -459,6 +573,9 @@ func c07RunDFS(arg string) explore.RunFn {
 		ca := world.ConnectPacket("a", 4, false)
 		if ver == 5 {
 			ca = v5connect("a", false, 2, 60)
+			if mpsA > 0 {
+				ca.Props = append(ca.Props, ref.Prop{ID: ref.PMaximumPacketSize, Num: uint32(mpsA)})
+			}
 		}
 		cls := map[string]*world.Client{"a": dial(ca), "b": dial(world.ConnectPacket("b", 4, true))}
 		cls["a"].Do(sub(1, "x", 1))
@@ -490,7 +607,11 @@ func c07RunDFS(arg string) explore.RunFn {
 			cl := cls[n]
 			cl.Poll()
 			got := cl.Recv[base[n]:]
-			o.Viol = append(o.Viol, c07Judge(n, cl, reqs[n], got, o.Counters)...)
+			m := 0
+			if n == "a" {
+				m = mpsA
+			}
+			o.Viol = append(o.Viol, c07Judge(n, cl, m, reqs[n], got, o.Counters)...)
 			fmt.Fprintf(&obs, "%s(closed=%v):%v; ", n, cl.Closed(), got)
 		}
 		o.Obs = obs.String()
@@ -508,6 +629,7 @@ var c07RacesThorough = []string{
 	"v5:ackA+pubB", "v5:sub2A+pubB", "v5:subxA+pubB", "v5:unsubzA+pubB0", "v5:pubAs+pubB", "v5:relA+pubB", "v5:pingA+pubB2", "v5:pingA+pubB0",
 	"v5:pubA1+unsubA+pubB+pubB0", "v5:pingA+ackA+pubB", "v5:pingA+pingB+pubB",
 	"v4:subA+pubB", "v4:unsubA+pubB", "v4:pubA2+pubB", "v4:relA+pubB0", "v4:pingA+subA+pubB+pubB0",
+	"v5m:bigsubA+pubB", "v5m:bigunsubA+pingA+pubB0", "v5m:fitsubA+pubB", "v5m:pingA+pubAs+pubB",
 }
 
 func init() {
@@ -518,12 +640,31 @@ func init() {
 		c.Rep.Assumption("one request at a time, broker run to quiescence under the deterministic default schedule (sequential histories)")
 		c.Rep.Assumption("state = reflective dump of *Server plus reference-model state; two histories are merged only if byte-identical")
 		c.Rep.Assumption("no hook rejects packets; the ACL relation denies read and write below topic level 'd'")
+		c.Rep.Assumption("Maximum Packet Size scenarios: the client announces 24 (16 in the race scenarios and one thorough history scenario); the smallest encoding of an acknowledgement (no reason string / user properties) decides whether it can be sent")
 		c.Rep.Assumption("E3 part (c07r): threads are serialised by the cooperative scheduler (sequentially consistent interleavings only); every interleaving up to the stated delay bound; scheduling points as in C32")
-		// E3 first: it is small (a cap of a few seconds per scenario, PB<=2 needs about a second)
+		// First the Maximum Packet Size scenario: its decisive histories are short (the oversize
+		// acknowledgement is at depth 1) and it costs a few seconds.
+		var mst *explore.BFSStats
+		if c.Quick() {
+			mst = explore.RunBFS(c, "c07", "v=5,n=3,mps=24", 0, 12*time.Second)
+		} else {
+			mst = explore.RunBFS(c, "c07", "v=5,n=5,mps=24", 0, 60*time.Second)
+			// a smaller maximum: error acknowledgements lose their reason string instead of the connection
+			explore.RunBFS(c, "c07", "v=5,n=4,mps=16", 0, 20*time.Second)
+		}
+		if mst.States > 1 && mst.Counters["requests-with-oversize-ack"] == 0 {
+			c.Rep.Add(explore.Violation{Key: "internal:vacuous:c07-oversize-ack", Msg: "the Maximum Packet Size scenario never sent a request whose acknowledgement exceeds the client's maximum"})
+		}
+		// Then E3: it is small (a cap of a few seconds per scenario, PB<=2 needs about a second)
 		// and must not be starved by the history search on a loaded machine.
 		c07Races(c)
 		if c.Quick() {
-			explore.RunBFS(c, "c07", "v=5,n=5", 0, 35*time.Second)
+			// on a loaded machine the two searches share what is left of the tier's budget
+			b := 35 * time.Second
+			if half := (c.Left() - 2*time.Second) / 2; half < b {
+				b = half
+			}
+			explore.RunBFS(c, "c07", "v=5,n=5", 0, b)
 			explore.RunBFS(c, "c07", "v=4,n=5", 0, 35*time.Second)
 		} else {
 			// the two history searches share what the race scenarios left of the tier's budget
